@@ -734,6 +734,9 @@ class World:
         self.pending = 0  # queued non-poll events
         self.pacing = "regular"
         self.lazy_ms = 4000
+        # transaction status the history shell reports when it acknowledges a PDU of a closed transaction: TERMINATED
+        # (it keeps a history), or UNDEFINED / UNRECOGNIZED (CFDP 4.7.2 for an entity that keeps none)
+        self.closed_status = TransactionStatus.TERMINATED
         self.tick_ms = 1000  # pacing "ticked": period of every entity's main loop
         self.tick_phase_ms = 300  # ... and the offset of the second entity's loop
         self.wake_armed: set = set()
@@ -1046,7 +1049,7 @@ class World:
                 self.probe("history_answer_" + kind)
                 self.log.append(f"  {ent.name}.{hk} history: {pdu_info(pdu)} for closed {tid}")
                 if kind == "EOF":
-                    ack = acknowledge_inactive_eof_pdu(pdu, TransactionStatus.TERMINATED)
+                    ack = acknowledge_inactive_eof_pdu(pdu, self.closed_status)
                     for m in self.monitors:
                         f = getattr(m, "on_inactive_ack", None)
                         if f:
@@ -1056,7 +1059,7 @@ class World:
                 elif kind == "FIN" and pdu.transmission_mode == ACK:
                     conf = copy.copy(pdu.pdu_header.pdu_conf)
                     conf.direction = Direction.TOWARDS_RECEIVER
-                    ack = AckPdu(conf, DirectiveType.FINISHED_PDU, pdu.condition_code, TransactionStatus.TERMINATED)
+                    ack = AckPdu(conf, DirectiveType.FINISHED_PDU, pdu.condition_code, self.closed_status)
                     rawo = bytes(ack.pack())
                     self.link.send(ent, Emitted(rawo, parse_pdu(rawo), ack.packet_len), hk)
                 return None
@@ -1122,7 +1125,13 @@ class World:
                     if en == ent.name and hk not in served:
                         r = self.poll(ent, hk)
                         busy = busy or bool(r.emitted) or r.pre.step != r.post.step
-            self.push(self.clock.t + (1 if busy else self.tick_ms), ("tick", ent))
+            if busy:
+                nxt = self.clock.t + 1
+            else:
+                # ticks lie on a fixed grid (entity i at n * period + phase_i), so that the two loops do not drift
+                ph = ev[2]
+                nxt = ((self.clock.t - ph) // self.tick_ms + 1) * self.tick_ms + ph
+            self.push(nxt, ("tick", ent, ev[2]))
         elif kind == "poll":
             ent, hk = ev[1], ev[2]
             busy = False
@@ -1176,7 +1185,8 @@ class World:
                 if en not in ents:
                     ents.append(en)
             for i, en in enumerate(ents):
-                self.push(self.clock.t + 1 + (self.tick_phase_ms if i else 0), ("tick", self.ents[en]))
+                ph = (self.clock.t + 1 + (self.tick_phase_ms if i else 0)) % self.tick_ms
+                self.push(self.clock.t + 1 + (self.tick_phase_ms if i else 0), ("tick", self.ents[en], ph))
             return
         for en, hk in self.polled:
             self.arm_poll(self.ents[en], hk, True)
